@@ -258,6 +258,15 @@ def check_once(ctx, r):
             ok = False
             last = [p for _, p in g.falloff.pred if p.ast is not None]
             ctx.bad("C07.1", f, last[0].ast if last else f.node, "the wrapper can fall off its end and return None instead of fn's result")
+        # ... and `args` / `kwargs` still are what the caller passed: the wrapper does not re-bind them (to `bound.args, bound.kwargs`, to a
+        # filtered copy ...): defaults would be materialised and keywords turned positional before the function -- or a decorator under
+        # jaxtyped that looks at how it was called -- sees them
+        fwd = {x.arg for x in (f.node.args.vararg, f.node.args.kwarg) if x is not None} if f.qualname not in impls else set(f.params[:2])
+        for x in walk_scope(f.node):
+            if isinstance(x, ast.Name) and isinstance(x.ctx, ast.Store) and x.id in fwd:
+                ok = False
+                ctx.bad("C07.1", f, x, f"`{x.id}` is re-bound before the call is forwarded: the decorated function no longer receives the caller's own argument list "
+                        "(positional stays positional, keyword stays keyword, defaults stay unmaterialised)", construct=f"forwarded argument list {x.id} re-bound")
         # all calls of fn pass exactly *args, **kwargs
         for c in [c for n in g.live_nodes() for c in _fn_calls(n)]:
             if not is_passthrough_call(c):
